@@ -125,6 +125,25 @@ func c12TTol(v float64) float64 {
 	return t
 }
 
+// c12TTolAt is the pointwise version: away from x = 0 the error of the
+// library's formula is |dF/dz|·δz with z = V/(V+x²), δz ≈ 3 roundings·2^-53·z and
+// dF/dz = ½ z^(V/2-1) (1-z)^(-1/2) / B(V/2,½), (1-z)^(-1/2) = sqrt(V+x²)/|x|,
+// 1/B ≈ sqrt(V/2π): δF ≲ 0.2·2^-52·V/|x|. In addition the prefactor
+// exp(lnΓ(…) − …) carries a relative error of a few ulp(lnΓ((V+1)/2)) (1e-10 at
+// V = 1e5), and the continued fraction stops at 3e-14. Allowed:
+// 2e-12 + 8·ulp(lnΓ((V+1)/2)) + 4·2^-52·V/|x|, never more than c12TTol(V).
+func c12TTolAt(v, x float64) float64 {
+	lg, _ := math.Lgamma((v + 1) / 2)
+	t := 2e-12 + 8*c12Ulp(lg)
+	if x != 0 {
+		t += 4 * c12Eps * v / math.Abs(x)
+	}
+	if c := c12TTol(v); x == 0 || t > c {
+		t = c
+	}
+	return t
+}
+
 func c12Ulp(x float64) float64 {
 	x = math.Abs(x)
 	return math.Nextafter(x, math.Inf(1)) - x
@@ -187,11 +206,15 @@ func c12CheckTPoint(c c12TPoint) *kit.Fail {
 	if x == 0 && f != 0.5 {
 		return kit.Failf("t-cdf-symmetry", "TDist{%v}.CDF(0) = %v", v, f)
 	}
-	tol := c12TTol(v)
+	tol := c12TTolAt(v, x)
 	ref := c12TCDF(v, x)
 	e := math.Abs(f - ref)
 	kit.NoteMax("t: worst |CDF - quadrature| (absolute)", e)
-	kit.NoteMax("t: worst |CDF - quadrature| / tolerance(V)", e/tol)
+	kit.NoteMax("t: worst |CDF - quadrature| / staircase bound(V)", e/c12TTol(v))
+	kit.NoteMax("t: worst |CDF - quadrature| / pointwise tolerance(V,x)", e/tol)
+	if v <= 100 && math.Abs(x) >= 0.01 {
+		kit.NoteMax("t: worst |CDF - quadrature| for V <= 100, |x| >= 0.01", e)
+	}
 	if e > tol {
 		return kit.Failf("t-cdf-vs-quadrature", "TDist{%v}.CDF(%v) = %.17g, quadrature of the density gives %.17g (diff %g, allowed %g)", v, x, f, ref, f-ref, tol)
 	}
@@ -292,10 +315,10 @@ func c12CheckTInv(c c12TInv) *kit.Fail {
 	if !(fx >= p-1e-14) || !(fb <= p+1e-14) {
 		return kit.Failf("t-inverse-not-crossing", "InvCDF(TDist{%v})(%.17g) = %.17g but CDF there = %.17g and CDF(x-%g) = %.17g: not the point where the CDF reaches p", v, p, x, fx, delta, fb)
 	}
-	tol := 2 * c12TTol(v)
+	tol := 2 * c12TTolAt(v, x)
 	ref := c12TCDF(v, x)
 	e := math.Abs(ref - p)
-	kit.NoteMax("t inverse: worst |quadrature(InvCDF(p)) - p| / (2·tolerance(V))", e/tol)
+	kit.NoteMax("t inverse: worst |quadrature(InvCDF(p)) - p| / (2·pointwise tolerance(V,x))", e/tol)
 	kit.NoteMax("t inverse: worst |quadrature(InvCDF(p)) - p| (absolute)", e)
 	if e > tol {
 		return kit.Failf("t-inverse-vs-quadrature", "InvCDF(TDist{%v})(%.17g) = %.17g, where the reference distribution function is %.17g (diff %g, allowed %g)", v, p, x, ref, ref-p, tol)
@@ -309,7 +332,7 @@ func c12CheckTInv(c c12TInv) *kit.Fail {
 	if e := math.Abs(c12TCDF(v, y) - ref); e > tol {
 		return kit.Failf("t-inverse-roundtrip", "TDist{%v}: x=%.17g, InvCDF(CDF(x)) = %.17g: %g apart in probability (allowed %g)", v, x, y, e, tol)
 	} else {
-		kit.NoteMax("t inverse: worst distance of InvCDF(CDF(x)) from x in probability / (2·tolerance(V))", e/tol)
+		kit.NoteMax("t inverse: worst distance of InvCDF(CDF(x)) from x in probability / (2·pointwise tolerance(V,x))", e/tol)
 		if math.Abs(ref-0.5) < 0.49 {
 			kit.NoteMax("t inverse: worst |InvCDF(CDF(x)) - x| for 0.01 < F < 0.99", math.Abs(x-y))
 		}
